@@ -558,7 +558,8 @@ def replay_case(rng, M, kind, user_det):
         gb = add_group([rng.choice(ROT1) for _ in range(rb)], 1)
         gb["fr"] = [(k, 1) for k in range(1, rb + 1)]
         groups = [ga, gb]
-    words = [list(w) for w in __import__("itertools").product(range(4), repeat=n) if any(w)]
+    enc_wires = {w for g_ in groups for k in g_["pos"] for w in ops[k]["w"]}
+    words = [list(w) for w in __import__("itertools").product(range(4), repeat=n) if any(w[q - 1] for q in enc_wires)]
     return {"n": n, "ops": ops, "groups": groups, "pws": rng.sample(words, 3), "kind": kind, "M": M}
 
 
